@@ -38,6 +38,7 @@ def shards(tier, seed):
             k = max(1, ny // 700); stepy = (ny + k - 1) // k
             for j in range(k):
                 out.append({"name": f"triples:{cid}:{j}", "mode": "triples", "cal": cid, "ylo": cal.min_year + j * stepy, "yhi": min(cal.max_year, cal.min_year + (j + 1) * stepy - 1)})
+    out.append({"name": "factory-spellings", "mode": "factories", "n": 4 if tier == "quick" else 24})
     return out
 
 
@@ -245,6 +246,26 @@ def run_edges(ctx, cid):
                     x = LocalDate(ay, 1, 1, cal) if cal.min_year <= ay <= cal.max_year else None
                     if x is not None and (x.era != era or x.year_of_era != yoe):
                         ctx.V(f"C01:era-year:{cid}", f"{cid}: absolute year {ay} of ({yoe}, {era!r}) reports ({x.year_of_era}, {x.era!r})", {"kind": "era", "cal": cid})
+                # the era constructor: LocalDate(year_of_era, m, d, calendar, era) is the date of the absolute year - accepted exactly when that date exists
+                for yoe in {a, b, a + 1, a + 3, a + 4, (a + b) // 2, rng.randint(a, b), rng.randint(a, min(b, a + 12))}:
+                    if not a <= yoe <= b: continue
+                    ay = cal.get_absolute_year(yoe, era)
+                    if not cal.min_year <= ay <= cal.max_year: continue
+                    for m_ in {1, 2, cal.get_months_in_year(ay)}:
+                        dim_ = cal.get_days_in_month(ay, m_)
+                        for d_ in (1, dim_, dim_ + 1, 29, 30):
+                            ctx.ev(); ctx.count("era_checks"); ctx.key((cid, "era-ctor", getattr(era, "name", "?"), d_ <= dim_))
+                            try:
+                                x = LocalDate(yoe, m_, d_, cal, era)
+                            except ValueError as e:
+                                ctx.exc(e)
+                                if d_ <= dim_:
+                                    ctx.V(f"C01:era-ctor-rejected:{cid}", f"{cid}: LocalDate({yoe}, {m_}, {d_}, era={getattr(era, 'name', era)}) raised {e!r}; absolute year {ay} has {dim_} days in month {m_}", {"kind": "era", "cal": cid})
+                                continue
+                            if d_ > dim_:
+                                ctx.V(f"C01:era-ctor-accepted-invalid:{cid}", f"{cid}: LocalDate({yoe}, {m_}, {d_}, era={getattr(era, 'name', era)}) was accepted as {gen.ymd(x)}; absolute year {ay} has only {dim_} days in month {m_}", {"kind": "era", "cal": cid})
+                            elif gen.ymd(x) != (ay, m_, d_) or x != LocalDate(ay, m_, d_, cal):
+                                ctx.V(f"C01:era-ctor-value:{cid}", f"{cid}: LocalDate({yoe}, {m_}, {d_}, era={getattr(era, 'name', era)}) = {gen.ymd(x)}, expected {(ay, m_, d_)}", {"kind": "era", "cal": cid})
                 must_reject(ctx, cid, "year-of-era-out-of-range", lambda: cal.get_absolute_year(b + 1, era), {"yoe": b + 1})
                 must_reject(ctx, cid, "year-of-era-out-of-range", lambda: cal.get_absolute_year(a - 1, era), {"yoe": a - 1})
             except Exception as e:  # noqa: BLE001
@@ -326,7 +347,29 @@ def run_triples(ctx, cid, ylo, yhi):
 def run(ctx, shard):
     for k in REQUIRED["any"]:
         ctx.counters.setdefault(k, 0)
-    mode = shard["mode"]; cid = shard["cal"]
+    mode = shard["mode"]
+    if mode == "factories":
+        import json as _json
+        import os
+        import subprocess
+        import sys
+        for k in range(shard["n"]):
+            sd = ctx.rng.randrange(10**9)
+            try:
+                r = subprocess.run([sys.executable, "-m", "vf.props.c01_child", str(sd)], capture_output=True, text=True, timeout=600, env=dict(os.environ),
+                                   cwd=os.path.dirname(os.path.dirname(os.path.dirname(os.path.abspath(__file__)))))
+                line = [ln for ln in r.stdout.splitlines() if ln.startswith("@@C01CHILD ")]
+                res = _json.loads(line[-1][len("@@C01CHILD "):]) if line else None
+            except subprocess.TimeoutExpired:
+                res = None
+            if res is None:
+                ctx.inconc("factory-spelling child produced no result"); continue
+            ctx.ev(res["calendars"] * 120); ctx.count("factory_children"); ctx.key(("factories", k)); ctx.distinct(res["calendars"])
+            for pb in res["problems"][:5]:
+                ctx.V(f"C01:factory-spelling:{pb[1]}", f"in a fresh interpreter whose first use of the calendar is CalendarSystem.get_{pb[0]} (plain numbers as arguments): {pb[1:]}", {"kind": "factories", "seed": sd}, pb)
+        ctx.sample({"kind": "factories", "children": shard["n"]})
+        return
+    cid = shard["cal"]
     if mode == "edges":
         run_edges(ctx, cid)
     elif mode == "windows":
